@@ -72,7 +72,7 @@ type mentry struct {
 	ls    int64
 	rev   mkey
 	dsr   bool
-	rstts bool
+	rstts int64 // rst_seen timestamp, 0 = none
 	a, b  mleg
 }
 
@@ -87,7 +87,7 @@ func (l mleg) coq() string {
 }
 func (e mentry) coq() string {
 	kn := []string{"KNormal", "KFwd", "KRev", "KOther"}[e.kind]
-	return fmt.Sprintf("(mkE %s %d %s %s %s %s %s)", kn, e.ls, e.rev.coq(), b2s(e.dsr), b2s(e.rstts), e.a.coq(), e.b.coq())
+	return fmt.Sprintf("(mkE %s %d %s %s %d %s %s)", kn, e.ls, e.rev.coq(), b2s(e.dsr), e.rstts, e.a.coq(), e.b.coq())
 }
 
 // v6mode: the current case runs the IPv6 flavour (KeyV6/ValueV6, ipVersion 6 scanner, cali_v6_ccq value layout)
@@ -149,9 +149,7 @@ func realValue(e mentry) []byte {
 			v = conntrack.NewValueV6Normal(time.Duration(e.ls), flags, realLeg(e.a), realLeg(e.b))
 			v[v4.VoTypeV6] = 7
 		}
-		if e.rstts {
-			binary.LittleEndian.PutUint64(v[v4.VoRSTSeenV6:v4.VoRSTSeenV6+8], 12345)
-		}
+		binary.LittleEndian.PutUint64(v[v4.VoRSTSeenV6:v4.VoRSTSeenV6+8], uint64(e.rstts))
 		return append([]byte(nil), v[:]...)
 	}
 	var v conntrack.Value
@@ -166,9 +164,7 @@ func realValue(e mentry) []byte {
 		v = conntrack.NewValueNormal(time.Duration(e.ls), flags, realLeg(e.a), realLeg(e.b))
 		v[v4.VoType] = 7
 	}
-	if e.rstts {
-		binary.LittleEndian.PutUint64(v[v4.VoRSTSeen:v4.VoRSTSeen+8], 12345)
-	}
+	binary.LittleEndian.PutUint64(v[v4.VoRSTSeen:v4.VoRSTSeen+8], uint64(e.rstts))
 	return append([]byte(nil), v[:]...)
 }
 
@@ -360,9 +356,16 @@ func genTimeouts(r *rng) (timeouts.Timeouts, string) {
 	}
 }
 
+func zc(v int64) string {
+	if v < 0 {
+		return fmt.Sprintf("(%d)", v)
+	}
+	return fmt.Sprintf("%d", v)
+}
+
 func tmCoq(t timeouts.Timeouts) string {
-	return fmt.Sprintf("(mkTm %d %d %d %d %d %d %d)", int64(t.TCPSynSent), int64(t.TCPEstablished), int64(t.TCPFinsSeen),
-		int64(t.TCPResetSeen), int64(t.UDPTimeout), int64(t.GenericTimeout), int64(t.ICMPTimeout))
+	return fmt.Sprintf("(mkTm %s %s %s %s %s %s %s)", zc(int64(t.TCPSynSent)), zc(int64(t.TCPEstablished)), zc(int64(t.TCPFinsSeen)),
+		zc(int64(t.TCPResetSeen)), zc(int64(t.UDPTimeout)), zc(int64(t.GenericTimeout)), zc(int64(t.ICMPTimeout)))
 }
 
 func genLeg(r *rng, shape int) (mleg, mleg) {
@@ -424,7 +427,22 @@ func (g *gen) tracking(kind int, now int64) mentry {
 	if ls < 1 {
 		ls = 1
 	}
-	return mentry{kind: kind, ls: ls, dsr: g.r.coin(15), rstts: g.r.coin(20), a: a, b: b}
+	// rst_seen: mostly none; otherwise a time at or after last_seen, anywhere between it and now (the 120 s rule must
+	// be measured from last_seen, never from this value)
+	var rst int64
+	if g.r.coin(25) {
+		rst = ls
+		if now > ls {
+			rst = ls + int64(g.r.next()%uint64(now-ls+1))
+		}
+		if g.r.coin(30) {
+			rst = now - int64(g.r.intn(240))*sec
+		}
+		if rst < 1 {
+			rst = 1
+		}
+	}
+	return mentry{kind: kind, ls: ls, dsr: g.r.coin(15), rstts: rst, a: a, b: b}
 }
 
 // treeFixed: does handleNATEntries of the tree under test look the reverse entry up when a forward entry and the
@@ -458,7 +476,14 @@ func main() {
 	r := &rng{s: *seed*7919 + 14}
 	enc := json.NewEncoder(os.Stdout)
 	for i := 0; i < *n; i++ {
-		oneCase(r, enc, i)
+		switch m := i % 20; {
+		case m < 12:
+			oneCase(r, enc, i)
+		case m < 19:
+			doneCase(r, enc)
+		default:
+			cfgCase(r, enc)
+		}
 	}
 	_ = enc.Encode(map[string]any{"stats": map[string]any{"handleNATEntries_looks_up_reverse_on_equal_timestamps": treeFixed}})
 }
@@ -647,7 +672,7 @@ func oneCase(r *rng, enc *json.Encoder, idx int) {
 		obs = append(obs, "["+strings.Join(l, "; ")+"]")
 	}
 
-	coq := fmt.Sprintf("(mkCase %s %s [%s] %d %d [%s] [%s])", tmCoq(tm), b2s(treeFixed), strings.Join(ct0, "; "), k0, g0,
+	coq := fmt.Sprintf("(AScan (mkCase %s %s [%s] %d %d [%s] [%s]))", tmCoq(tm), b2s(treeFixed), strings.Join(ct0, "; "), k0, g0,
 		strings.Join(segs, "; "), strings.Join(obs, "; "))
 	coq = zscope(coq)
 	if nPairs > 0 {
@@ -702,4 +727,103 @@ func sortedKeys(m map[mkey]mentry) []mkey {
 		return ks[i].id < ks[j].id
 	})
 	return ks
+}
+
+// ---------------------------------------------------------------- direct calls: EntryExpired / EntryFinished
+
+var reasonCode = map[string]int{
+	"RST seen":  1,
+	"FINs seen": 2,
+	"no traffic on conn with RST with residual traffic for too long": 3,
+	"no traffic on established flow for too long":                    4,
+	"no traffic on pre-established flow for too long":                5,
+	"no traffic on ICMP flow for too long":                           6,
+	"no traffic on UDP flow for too long":                            7,
+	"no traffic on generic IP flow for too long":                     8,
+}
+
+func optCoq(reason string, done bool) string {
+	if !done {
+		return "None"
+	}
+	c, ok := reasonCode[reason]
+	if !ok {
+		c = 99
+	}
+	return fmt.Sprintf("(Some %d%%N)", c)
+}
+
+func doneCase(r *rng, enc *json.Encoder) {
+	tm, tmTag := genTimeouts(r)
+	g := &gen{r: r, t: tm}
+	v6mode = r.coin(40)
+	now := int64(5000*sec) + int64(r.next()%uint64(1000*sec))
+	p := []uint32{6, 6, 6, 6, 17, 1, 58, 132, 47, 0}[r.intn(10)]
+	kind := []int{0, 0, 2}[r.intn(3)]
+	e := g.tracking(kind, now)
+	var val conntrack.ValueInterface
+	if v6mode {
+		val = conntrack.ValueV6FromBytes(realValue(e))
+	} else {
+		val = conntrack.ValueFromBytes(realValue(e))
+	}
+	re, de := conntrack.EntryExpired(tm, now, uint8(p), val)
+	rf, df := conntrack.EntryFinished(tm, now, uint8(p), val)
+	coq := fmt.Sprintf("(ADone %s %d %d%%N %s %s %s)", tmCoq(tm), now, p, e.coq(), optCoq(re, de), optCoq(rf, df))
+	tags := []string{"direct:entryDone", tmTag, fmt.Sprintf("proto:%d", p)}
+	if v6mode {
+		tags = append(tags, "ip:v6")
+	} else {
+		tags = append(tags, "ip:v4")
+	}
+	if e.rstts != 0 {
+		tags = append(tags, "rst-time-recorded")
+	}
+	if de {
+		tags = append(tags, fmt.Sprintf("expired-rule:%d", reasonCode[re]))
+	}
+	if df && !de {
+		tags = append(tags, "finished-not-expired")
+	}
+	_ = enc.Encode(map[string]any{"coq": coq, "nt": de || df, "key": coq, "tags": tags})
+}
+
+// ---------------------------------------------------------------- timeouts.GetTimeouts
+
+var cfgFields = []string{"TCPSynSent", "TCPEstablished", "TCPFinsSeen", "TCPResetSeen", "UDPTimeout", "GenericTimeout", "ICMPTimeout"}
+
+func cfgCase(r *rng, enc *json.Encoder) {
+	cfg := map[string]string{}
+	var l []string
+	for i, f := range cfgFields {
+		switch r.intn(4) {
+		case 0: // a duration
+			d := time.Duration(r.intn(7200)) * time.Second
+			if r.coin(20) {
+				d = time.Duration(r.intn(100000)) * time.Millisecond
+			}
+			if r.coin(5) {
+				d = -d
+			}
+			cfg[f] = d.String()
+			l = append(l, fmt.Sprintf("(%d%%N, Some %s)", i, zc(int64(d))))
+		case 1: // not a duration: the default stays
+			cfg[f] = []string{"bogus", "", "12", "1 hour"}[r.intn(4)]
+			if _, err := time.ParseDuration(cfg[f]); err == nil {
+				cfg[f] = "bogus"
+			}
+			l = append(l, fmt.Sprintf("(%d%%N, None)", i))
+		}
+	}
+	if r.coin(30) {
+		cfg["CreationGracePeriod"] = "3s"
+		l = append(l, "(7%N, Some 3000000000)")
+	}
+	if r.coin(30) {
+		cfg["NoSuchTimeout"] = "5s"
+		l = append(l, "(9%N, Some 5000000000)")
+	}
+	got := timeouts.GetTimeouts(cfg)
+	coq := fmt.Sprintf("(ACfg [%s] %s)", strings.Join(l, "; "), tmCoq(got))
+	_ = enc.Encode(map[string]any{"coq": coq, "nt": len(l) > 0, "key": coq, "tags": []string{"direct:GetTimeouts"}})
 }
